@@ -71,6 +71,7 @@ structure Rpc where
   error : Option ErrK := none
   event : Bool := false
   deliveries : Nat := 0          -- history variable: number of `deliver_reply` calls
+  lateBorn : Bool := false       -- history variable: created after the worker had delivered its final error
 deriving DecidableEq, Repr
 
 /-- An entry of `_q`: the text and whether it is the marked client `<hello>`. -/
@@ -111,6 +112,9 @@ structure World where
   rpcs : List Rpc := []               -- every RPC object ever created
   wire : Bytes := []                  -- bytes accepted by the transport so far
   frames : List Bytes := []           -- history variable: frames the worker started to write
+  puts : List QItem := []             -- history variable: everything ever put on `_q`, in `Queue.put` order
+  dequeued : List (QItem × Bool) := [] -- history variable: items taken off `_q` with the `_base` read at that moment
+  errbackDone : Bool := false         -- history variable: the worker has run its final `_dispatch_error`
   parser : PState := {}
   received : List Str := []           -- history variable: messages handed to `_dispatch_message`
   taken : List Str := []              -- history variable: notifications returned by take_notification
@@ -146,6 +150,7 @@ inductive Op
   -- the worker, one step per program point; parameters are the environment's answers
   | wTop (ready : Bool)
   | wWrite (n : Int)
+  | wWriteErr                             -- `_transport_write` raised (e.g. socket closed locally)
   | wSelect (ev : Bool)
   | wRead (r : ReadRes)
   | wDispatch
@@ -214,9 +219,9 @@ def step (env : Env) (w : World) : Op → World
   | .cNew id =>
     { w with hasReplyL := true,
              id2rpc := if id ∈ w.id2rpc then w.id2rpc else w.id2rpc ++ [id],
-             rpcs := if w.rpcs.any (·.id = id) then w.rpcs else w.rpcs ++ [{ id := id }] }
+             rpcs := if w.rpcs.any (·.id = id) then w.rpcs else w.rpcs ++ [{ id := id, lateBorn := w.errbackDone }] }
   | .cSend data =>
-    if w.connected then { w with q := w.q ++ [⟨data, false⟩] } else w
+    if w.connected then { w with q := w.q ++ [⟨data, false⟩], puts := w.puts ++ [⟨data, false⟩] } else w
   | .cTake =>
     match w.notifQ with
     | [] => w
@@ -228,7 +233,7 @@ def step (env : Env) (w : World) : Op → World
     if w.conn = .idle then { w with hasNotif := true, hasHello := true, conn := .listenersAdded } else w
   | .kSendHello data =>
     if w.conn = .listenersAdded then
-      if w.connected then { w with q := w.q ++ [⟨data, true⟩], conn := .helloQueued }
+      if w.connected then { w with q := w.q ++ [⟨data, true⟩], puts := w.puts ++ [⟨data, true⟩], conn := .helloQueued }
       else { w with conn := .done false }
     else w
   | .kStart =>
@@ -252,7 +257,7 @@ def step (env : Env) (w : World) : Op → World
       | item :: rest =>
         if ready then
           let data := frame (w.base11 && !item.isHello) item.data
-          { w with q := rest, frames := w.frames ++ [data], pc := .writing data }
+          { w with q := rest, frames := w.frames ++ [data], dequeued := w.dequeued ++ [(item, w.base11)], pc := .writing data }
         else { w with pc := .select }
       | [] => { w with pc := .select }
     else w
@@ -264,6 +269,10 @@ def step (env : Env) (w : World) : Op → World
         let k := n.toNat
         let rest := data.drop k
         { w with wire := w.wire ++ data.take k, pc := if rest.isEmpty then .select else .writing rest }
+    | _ => w
+  | .wWriteErr =>
+    match w.pc with
+    | .writing _ => { w with pc := .failing .transport }
     | _ => w
   | .wSelect ev =>
     if w.pc = .select then
@@ -297,12 +306,12 @@ def step (env : Env) (w : World) : Op → World
     | _ => w
   | .wErrback =>
     match w.pc with
-    | .failing e => { dispatchError w e with pc := .closingSelf }
+    | .failing e => { dispatchError w e with pc := .closingSelf, errbackDone := true }
     | _ => w
   | .wCloseSelf =>
     if w.pc = .closingSelf then { w with closing := true, socketClosed := true, connected := false, pc := .stopped } else w
   | .wExit =>
-    if w.pc = .exiting then { dispatchError w .transport with pc := .stopped } else w
+    if w.pc = .exiting then { dispatchError w .transport with pc := .stopped, errbackDone := true } else w
 
 def run (env : Env) (w : World) (ops : List Op) : World := ops.foldl (step env) w
 
